@@ -243,6 +243,16 @@ example : ((G.value GoCfg.amd64 { vis := [0x42, 0, 1, 7, 0, 0, 0, 1, 0x41, 0, 0,
 /-- … and after the clip of `Struct` the same re-slice panics instead of reading on. -/
 example : (do let c ← GoSlice.slice3 { vis := [1], rest := [2] } 0 1 1; c.slice 0 2 : Res GoSlice).isPanic = true := by
   decide +kernel
+/-- `validate` is load-bearing in this model: on a reader that was NOT validated (a text string announcing 16
+    bytes, 8 present) `value()` panics when the capacity ends with the data … -/
+example : (G.value GoCfg.amd64 { vis := [0x42, 0, 1, 7, 0, 0, 0, 16, 1, 2, 3, 4, 5, 6, 7, 8], rest := [] }).isPanic = true := by
+  decide +kernel
+/-- … and OVER-READS when the slice has spare capacity: the 8 foreign bytes behind the input become part of the
+    value (the historic cap-reslice defect is expressible here; theorems 9–11 exclude it for the real reader). -/
+example : (match G.value GoCfg.amd64 { vis := [0x42, 0, 1, 7, 0, 0, 0, 16, 1, 2, 3, 4, 5, 6, 7, 8],
+                                        rest := [0xAA, 0xAA, 0xAA, 0xAA, 0xAA, 0xAA, 0xAA, 0xAA] } with
+    | .ok v => v.vis == [1, 2, 3, 4, 5, 6, 7, 8, 0xAA, 0xAA, 0xAA, 0xAA, 0xAA, 0xAA, 0xAA, 0xAA]
+    | _ => false) = true := by decide +kernel
 /-- the validated state is reachable (`Valid` is not vacuous): a 16-byte Integer item. -/
 example : G.Valid GoCfg.amd64 { vis := [0x42, 0, 1, 2, 0, 0, 0, 4, 0, 0, 0, 7, 0, 0, 0, 0], rest := [9] } :=
   ⟨by decide +kernel, GoCfg.ok_of_bits _ rfl (by decide) _⟩
